@@ -11,7 +11,7 @@
      good_leaves t  every leaf carries a taxon and no taxon sits on two leaves
    Lengths are integers in units of 2^-10 (None = Python None, counted as 0). *)
 From Coq Require Import ZArith QArith List Bool.
-From DV Require Import Model.PyPrims Model.Tree Model.C14Model Model.C14Spec Proofs.C14Proofs Proofs.C14Means Proofs.C14Clu.
+From DV Require Import Model.PyPrims Model.Tree Model.C14Model Model.C14Spec Proofs.C14Proofs Proofs.C14Means Proofs.C14Clu Proofs.C14Upgma.
 Import ListNotations.
 Open Scope Z_scope.
 
@@ -274,3 +274,29 @@ Theorem clustering_total_on_trees : forall t p w order,
   (exists T, nj_tree (qtable p w) order = Ok T) /\ (exists T, upgma_tree (qtable p w) order = Ok T).
 Proof. exact clustering_total_p. Qed.
 Print Assumptions clustering_total_on_trees.
+
+(* ---------------------------------------------------------------------------------------- *)
+(* UPGMA INVERTS ULTRAMETRIC DISTANCES (full proof, any number of taxa, any iteration order of the
+   id()-hashed taxon set, any tie-breaks): on a complete symmetric matrix satisfying the three-point
+   condition, upgma_tree returns a tree T in which the path distance (qdist: sum of the edge lengths
+   on the path, structural recursion in Model/C14Spec.v) between ANY two taxa is exactly the matrix
+   entry, and every taxon is at the same distance from the root (T is ultrametric).
+   Proof: invariant over the iterations (Proofs/C14Upgma.v, UI): the pool's reduced matrix is a
+   symmetric ultrametric; each pool node's subtree has all its leaves at the node's recorded height
+   and realises the matrix on its leaves; the matrix entry of two leaves in different pool nodes is
+   the nodes' reduced distance.  Key lemma closest_equidistant: the closest pair under an
+   ultrametric is equidistant from every other node (it is a cherry), so upgma_step_sound applies
+   with its soundness clause at every iteration.
+   This is `upgma_recovers_ultrametric` up to the following, NOT proved here: (1) that the matrix
+   of a rose tree whose leaves are equidistant from the root satisfies the three-point condition,
+   (2) that a rooted tree with positive internal edge lengths is determined, up to child order, by
+   its leaf-to-leaf path distances.  With (1) and (2) the theorem below says that UPGMA returns the
+   generating tree; with pdm_exact it already says  PDM(UPGMA(M)) = M  entrywise. *)
+Theorem upgma_recovers_ultrametric_partial : forall M order,
+  NoDup order -> order <> [] -> mcomplete M order -> msymmetric M order -> ultrametric3 M order ->
+  exists T, upgma_tree M order = Ok T /\
+    (forall a b, In a order -> In b order -> a <> b ->
+       exists q, qdist T a b = Some q /\ (q == mval M a b)%Q) /\
+    (exists H, forall a, In a order -> exists q, qdown a T = Some q /\ (q == H)%Q).
+Proof. exact upgma_realizes_ultrametric_l. Qed.
+Print Assumptions upgma_recovers_ultrametric_partial.
